@@ -211,7 +211,48 @@ def post_omega(ev, args, kwargs, ret, exc, pre_, depth):
     return r
 
 
+def post_cost(ev, args, kwargs, ret, exc, pre_, depth):
+    """C03 at every evaluation of the cost function: per pair, how many core points violate value = -1 - GammaIn"""
+    p = args[0]
+    s = p.sys
+    r = np.asarray(s.domain.r, dtype=float)
+    T = list(s.types)
+    pairs = []
+    judged = 1
+    for i, a in enumerate(T):
+        for b in T[i:]:
+            clo = s.closure[a, b]
+            U = s.potential[a, b]
+            flag = 1 if getattr(clo, 'apply_hard_core', False) else 0
+            mean = 0.5 * (float(s.diameter[a]) + float(s.diameter[b]))
+            usig = getattr(U, 'sigma', None)
+            potk = type(U).__name__
+            core_by_pot = potk in ('HardSphere', 'Exponential', 'HardCoreLennardJones') and type(clo).__name__ in ('PercusYevick', 'PY', 'HyperNettedChain', 'HNC')
+            sigma = mean if flag else (float(usig) if usig is not None else mean)
+            if flag and core_by_pot and usig is not None:
+                sigma = max(mean, float(usig))
+            val = getattr(clo, 'value', None)
+            bad = 0
+            ncore = 0
+            if val is not None and exc is None:
+                gin = np.asarray(p.GammaIn[a, b], dtype=float)
+                idx = np.where((r <= sigma) & ~((np.abs(r - sigma) < 1e-6) & (r != sigma)))[0]
+                ncore = int(len(idx))
+                v = np.asarray(val, dtype=float)
+                if v.shape == gin.shape:
+                    bad = int(np.sum(~(v[idx] == -1.0 - gin[idx])))
+                    if len(idx) and float(np.max(np.abs(gin[idx]))) > 1e5:
+                        judged = 0          # beyond the underflow assumption high/kT >= 746 + gamma
+                else:
+                    bad = ncore
+            pairs.append({'a': a, 'b': b, 'clos': type(clo).__name__, 'flag': flag, 'pot': potk, 'ncore': ncore, 'bad': bad})
+    return {'prism': ob.oid(p), 'obj': ob.oid(p), 'pairs': pairs, 'judged': judged}
+
+
 def register(pre, post):
+    import os
+    if os.environ.get('VERIF_TRACE_COST'):
+        post['prism.cost'] = post_cost
     post['omega.fromarray'] = post_omega
     post['omega.fromfile'] = post_omega
     for e in ('system.check', 'system.createPRISM', 'system.solve'):
